@@ -1277,7 +1277,7 @@ class Interp:
                 return st          # the slot's fate is decided at the parent (slot_use, called from there)
             if m == "push_back":
                 return st          # handled when the MCall itself is visited (args first)
-            if m in ("clear", "assign"):
+            if m in ("clear", "assign", "swap"):
                 return st
             raise Unknown("unmodelled std::vector operation %s on %s at line %s" % (m, name, line))
         if pk == "Var" and p.get("ref"):
@@ -1292,6 +1292,8 @@ class Interp:
             return st
         if pk == "Return" and self.fn.d.get("const"):
             return st
+        if (pk == "MCall" and p.get("n") == "swap" and vec_member(p.get("obj"))) or (pk == "Call" and p.get("callee") == "std::swap"):
+            return st          # handled at the swap call
         if pk in ("Call", "MCall", "Construct", "TempObj") and n in (p.get("a") or []):
             i = p["a"].index(n)
             pt = p.get("pt") or []
@@ -1799,15 +1801,51 @@ def _range_src(args):
     return None
 
 
+def _swap_operands(n):
+    """(a, b) for a.swap(b) / std::swap(a, b) on vectors"""
+    if n.get("k") == "MCall" and n.get("n") == "swap" and n.get("obj") is not None and len(n.get("a") or []) == 1:
+        return n["obj"], n["a"][0]
+    if n.get("k") == "Call" and n.get("callee") == "std::swap" and len(n.get("a") or []) == 2:
+        return n["a"][0], n["a"][1]
+    return None
+
+
 def _event_len(self, n, st, base_init, decl_obj):
     """length bookkeeping of V / V_size, layered over the ownership events"""
     k = n.get("k")
+    sw = _swap_operands(n)
+    if sw is not None:
+        a, b = unwrap(sw[0]), unwrap(sw[1])
+        for fn_, comp in ((vec_member, 0), (size_member, 1)):
+            va, vb = fn_(a), fn_(b)
+            if va or vb:
+                if not (va and vb) or va[0] != vb[0] or obj_id(va[1]) is None or obj_id(vb[1]) is None:
+                    raise Unknown("swap of a container vector with something the check does not model at line %s: %s" % (n.get("l"), render(n)[:100]))
+                kind, oa, ob_ = va[0], obj_id(va[1]), obj_id(vb[1])
+                self.ensure(st, oa, self.obj_type(va[1]))
+                self.ensure(st, ob_, self.obj_type(vb[1]))
+                self.touched = True
+                la, lb = list(st[("len", oa, kind)]), list(st[("len", ob_, kind)])
+                la[comp], lb[comp] = lb[comp], la[comp]
+                st[("len", oa, kind)], st[("len", ob_, kind)] = tuple(la), tuple(lb)
+                if comp == 0:
+                    # the pointers - and with them their ownership state - change places; nothing is lost or gained
+                    st[(oa, kind)], st[(ob_, kind)] = st[(ob_, kind)], st[(oa, kind)]
+                    for extra in ("fs", "pend", "rel"):
+                        xa, xb = st.pop((extra, oa, kind), None), st.pop((extra, ob_, kind), None)
+                        if xb is not None:
+                            st[(extra, oa, kind)] = xb
+                        if xa is not None:
+                            st[(extra, ob_, kind)] = xa
+                    self.nevents += 1
+                return st
     if k == "Member" and size_member(n):
         kind, b = size_member(n)
         o = obj_id(b)
         p = self.par.get(id(n)) or {}
         pk = p.get("k")
         known = (pk == "MCall" and p.get("obj") is n) or (pk == "OpCall" and p.get("op") in ("=", "[]")) or pk in ("ForRange", "Return") \
+            or (pk == "MCall" and p.get("n") == "swap" and size_member(p.get("obj"))) or (pk == "Call" and p.get("callee") == "std::swap") \
             or (pk == "Call" and p.get("callee") in ("std::move", "std::forward")) or pk in ("Construct", "TempObj")
         if not known and pk in ("Call", "MCall") and n in (p.get("a") or []):
             i = p["a"].index(n)
